@@ -2,7 +2,9 @@ package rules
 
 import (
 	"fmt"
+	"go/token"
 	"go/types"
+	"math/big"
 
 	"golang.org/x/tools/go/ssa"
 )
@@ -147,4 +149,154 @@ func (c *Ctx) checkPairScanFull(rule string) {
 		"one loop: counter from 0, step 1, while counter < len(seq)",
 		fmt.Sprintf("%d of %d loop(s) of the function scan the whole pair (from 0, by 1, up to len): some positions are never compared", n, nLoops))
 	L.Floor(rule, 1, "one loop")
+}
+
+// checkProteinJCFormula: the initial distance of the protein models is the Jukes-Cantor estimator
+// for ns states, d = −(ns−1)/ns · ln(1 − ns/(ns−1) · p), with p the entry of the matrix of observed
+// proportions that the function returns first — compared as a rational function with ln as an
+// uninterpreted function of its argument.
+func (c *Ctx) checkProteinJCFormula(rule string) {
+	L := c.L
+	L.Rule(rule, "JC69Dist stores, for every pair, −(ns−1)/ns · ln(1 − ns/(ns−1) · p[i][j]) into the distance matrix (identity of rational functions, ln uninterpreted), where p is the matrix of proportions it returns and ns the number of states of the model")
+	r := c.fn("distance/protein", "*ProtDistModel", "JC69Dist")
+	if !r.ok() {
+		return
+	}
+	fn := r.F
+	// the matrices returned: p first, dist third
+	var pMat, dMat ssa.Value
+	allInstrs(fn, func(in ssa.Instruction) {
+		if ret, ok := in.(*ssa.Return); ok && len(ret.Results) == 3 {
+			pMat, dMat = ret.Results[0], ret.Results[2]
+		}
+	})
+	if pMat == nil {
+		L.Unknown(rule, r.label, "results", c.P.Pos(fn.Pos()), "the three result matrices were not found")
+		return
+	}
+	sc := &symCtx{recv: fn.Params[0]}
+	// a proportion kept in a local and stored into p once is p's entry as well
+	storedInP := map[ssa.Value]bool{}
+	allInstrs(fn, func(in ssa.Instruction) {
+		if call, ok := in.(*ssa.Call); ok {
+			cc := call.Common()
+			if g := cc.StaticCallee(); g != nil && g.Name() == "Set" && len(cc.Args) == 4 && cc.Args[0] == pMat {
+				if _, isK := cc.Args[3].(*ssa.Const); !isK {
+					storedInP[cc.Args[3]] = true
+				}
+			}
+		}
+	})
+	var sym func(v ssa.Value, d int) (frac, bool)
+	sym = func(v ssa.Value, d int) (frac, bool) {
+		if d > 40 {
+			return frac{}, false
+		}
+		if storedInP[v] && d > 0 {
+			return fracSym("p"), true
+		}
+		switch x := v.(type) {
+		case *ssa.Call:
+			cc := x.Common()
+			if g := cc.StaticCallee(); g != nil {
+				switch {
+				case g.Name() == "Ns" || g.Name() == "NState":
+					return fracSym("ns"), true
+				case g.Name() == "At" && len(cc.Args) == 3 && cc.Args[0] == pMat:
+					return fracSym("p"), true
+				case isPkgFunc(cc, "math", "Log"):
+					a, ok := sym(cc.Args[0], d+1)
+					if !ok {
+						return frac{}, false
+					}
+					return sc.apply("log", a), true
+				}
+			}
+			return frac{}, false
+		case *ssa.Convert:
+			return sym(x.X, d+1)
+		case *ssa.BinOp:
+			a, ok1 := sym(x.X, d+1)
+			b, ok2 := sym(x.Y, d+1)
+			if !ok1 || !ok2 {
+				return frac{}, false
+			}
+			switch x.Op {
+			case token.ADD:
+				return a.add(b), true
+			case token.SUB:
+				return a.sub(b), true
+			case token.MUL:
+				return a.mul(b), true
+			case token.QUO:
+				return a.div(b), true
+			}
+			return frac{}, false
+		case *ssa.UnOp:
+			if x.Op == token.SUB {
+				a, ok := sym(x.X, d+1)
+				return a.neg(), ok
+			}
+			return frac{}, false
+		case *ssa.Const:
+			if rr := ratOf(x.Value); rr != nil {
+				return frac{polyConst(rr), polyConst(big.NewRat(1, 1))}, true
+			}
+		}
+		return frac{}, false
+	}
+	ns, p, one := fracSym("ns"), fracSym("p"), fracConst(1, 1)
+	want := ns.sub(one).div(ns).neg().mul(sc.apply("log", one.sub(ns.div(ns.sub(one)).mul(p))))
+	n, okAll := 0, true
+	allInstrs(fn, func(in ssa.Instruction) {
+		call, ok := in.(*ssa.Call)
+		if !ok {
+			return
+		}
+		cc := call.Common()
+		g := cc.StaticCallee()
+		if g == nil || g.Name() != "Set" || len(cc.Args) != 4 || cc.Args[0] != dMat {
+			return
+		}
+		// stores of computed values (not the cap constant, not the mirrored copy)
+		v := cc.Args[3]
+		if _, isK := v.(*ssa.Const); isK {
+			return
+		}
+		if vc, isCall := v.(*ssa.Call); isCall {
+			if h := vc.Common().StaticCallee(); h != nil && h.Name() == "At" {
+				return // dist[j][i] = dist[i][j]
+			}
+		}
+		if _, isLoad := v.(*ssa.UnOp); isLoad {
+			return // a named constant (PROT_DIST_MAX)
+		}
+		if _, isG := v.(*ssa.Global); isG {
+			return
+		}
+		// a capped value merges the cap (a constant or a named constant) with the estimator
+		var leaves []ssa.Value
+		for lf := range throughPhis(v, false) {
+			switch y := lf.(type) {
+			case *ssa.Phi, *ssa.Const, *ssa.Global:
+				continue
+			case *ssa.UnOp:
+				if _, isG := y.X.(*ssa.Global); isG {
+					continue
+				}
+			}
+			leaves = append(leaves, lf)
+		}
+		for _, lf := range leaves {
+			n++
+			got, ok := sym(lf, 0)
+			if !ok || !got.eq(want) {
+				okAll = false
+			}
+		}
+	})
+	L.Check(n >= 1 && okAll, rule, r.label, "stored estimator", c.P.Pos(fn.Pos()),
+		fmt.Sprintf("%d computed store(s) into the distance matrix, each equal to −(ns−1)/ns · ln(1 − ns/(ns−1)·p)", n),
+		"a value stored into the initial distance matrix is not the ns-state Jukes-Cantor estimator of the pair's observed proportion")
+	L.Floor(rule, 1, "one store")
 }
